@@ -1269,6 +1269,20 @@ def _inline_single_use_temps(fn) -> bool:
                         elif isinstance(t, ast.UnaryOp) and isinstance(t.op, ast.Not) and isinstance(t.operand, ast.Name) and t.operand.id == tg.id:
                             t.operand = v
                             ok = True
+                # the subject of the next statement bound to a name first: `cm = <expr>` / `with cm:` and `it = <expr>` / `for x in it:`
+                # (the subject is the first thing the statement evaluates; t used nowhere else)
+                if not ok and isinstance(a, (ast.Assign, ast.AnnAssign)) and getattr(a, "value", None) is not None \
+                        and isinstance(b, (ast.With, ast.AsyncWith, ast.For, ast.AsyncFor)):
+                    tg = a.targets[0] if isinstance(a, ast.Assign) and len(a.targets) == 1 else (a.target if isinstance(a, ast.AnnAssign) else None)
+                    v = a.value
+                    if isinstance(tg, ast.Name) and uses.get(tg.id, 0) == 2 \
+                            and not any(isinstance(x, (ast.Await, ast.Yield, ast.YieldFrom, ast.NamedExpr, ast.Lambda)) for x in ast.walk(v)):
+                        if isinstance(b, (ast.With, ast.AsyncWith)) and isinstance(b.items[0].context_expr, ast.Name) and b.items[0].context_expr.id == tg.id:
+                            b.items[0].context_expr = v
+                            ok = True
+                        elif isinstance(b, (ast.For, ast.AsyncFor)) and isinstance(b.iter, ast.Name) and b.iter.id == tg.id:
+                            b.iter = v
+                            ok = True
                 if ok:
                     del blk[i]
                     changed = True
@@ -1765,6 +1779,9 @@ def resolve_aliases(repo: Repo):
                 for chd in ast.iter_child_nodes(par):
                     chd._parent = par
     for f in repo.all_funcs:
+        _canonical_suppress(f.node)
+        _split_live_ranges(f.node)
+    for f in repo.all_funcs:
         if _canonical_bool_locals(f.node, repo):
             for par in ast.walk(f.node):
                 for chd in ast.iter_child_nodes(par):
@@ -1819,6 +1836,99 @@ def resolve_aliases(repo: Repo):
                     ch._parent = par
 
 
+def _canonical_suppress(fn) -> bool:
+    """`with suppress(E1, E2): body` (contextlib) is `try: body / except (E1, E2): pass`"""
+    changed = False
+    for par in [fn] + list(own_walk(fn)):
+        for fld in ("body", "orelse", "finalbody"):
+            blk = getattr(par, fld, None)
+            if not isinstance(blk, list):
+                continue
+            for i, st in enumerate(blk):
+                if isinstance(st, ast.With) and len(st.items) == 1 and st.items[0].optional_vars is None and isinstance(st.items[0].context_expr, ast.Call) \
+                        and ast.unparse(st.items[0].context_expr.func) in ("suppress", "contextlib.suppress") and st.items[0].context_expr.args \
+                        and not st.items[0].context_expr.keywords and all(isinstance(a, (ast.Name, ast.Attribute)) for a in st.items[0].context_expr.args):
+                    ex = st.items[0].context_expr.args
+                    typ = ex[0] if len(ex) == 1 else ast.Tuple(elts=list(ex), ctx=ast.Load())
+                    h = ast.ExceptHandler(type=typ, name=None, body=[ast.Pass()])
+                    t = ast.copy_location(ast.Try(body=st.body, handlers=[h], orelse=[], finalbody=[]), st)
+                    ast.copy_location(h, st)
+                    ast.fix_missing_locations(t)
+                    # the handler sits after the body
+                    end = max((getattr(x, "end_lineno", 0) or 0) for x in ast.walk(st))
+                    for x in ast.walk(h):
+                        if hasattr(x, "lineno"):
+                            x.lineno = x.end_lineno = end
+                    blk[i] = t
+                    changed = True
+    if changed:
+        for par_ in ast.walk(fn):
+            for ch in ast.iter_child_nodes(par_):
+                ch._parent = par_
+    return changed
+
+
+def _split_live_ranges(fn) -> bool:
+    """A local assigned more than once by plain statements of one block (`x = self._f; if x is not None: return x; x = make(); ...`)
+    is several variables that share a name: every use reads the latest assignment above it in that block.  Each later assignment
+    gets a name of its own, so that the single-assignment canonicalisations (aliases, temporaries) apply to each range."""
+    params = {a.arg for a in fn.args.posonlyargs + fn.args.args + fn.args.kwonlyargs}
+    if fn.args.vararg:
+        params.add(fn.args.vararg.arg)
+    if fn.args.kwarg:
+        params.add(fn.args.kwarg.arg)
+    stores: dict[str, list] = {}
+    bad: set[str] = set()
+    for n in own_walk(fn):
+        if isinstance(n, ast.Name) and isinstance(n.ctx, (ast.Store, ast.Del)):
+            par = getattr(n, "_parent", None)
+            if isinstance(par, ast.Assign) and par.targets == [n] or isinstance(par, ast.AnnAssign) and par.target is n and par.value is not None:
+                stores.setdefault(n.id, []).append(par)
+            else:
+                bad.add(n.id)
+        elif isinstance(n, ast.ExceptHandler) and n.name:
+            bad.add(n.name)
+        elif isinstance(n, (ast.Global, ast.Nonlocal)):
+            bad.update(n.names)
+    changed = False
+    for k, defs in stores.items():
+        if len(defs) < 2 or k in bad or k in params or k.startswith("_"):
+            continue
+        holder = getattr(defs[0], "_parent", None)
+        blk = next((getattr(holder, fl) for fl in ("body", "orelse", "finalbody") if isinstance(getattr(holder, fl, None), list) and defs[0] in getattr(holder, fl)), None)
+        if blk is None or not all(any(d is s_ for s_ in blk) for d in defs):
+            continue
+        idx = sorted(blk.index(d) for d in defs)
+        names = [x for x in ast.walk(fn) if isinstance(x, ast.Name) and x.id == k]
+        own_ids = {id(x) for x in own_walk(fn)}
+        if any(id(x) not in own_ids for x in names):
+            continue        # captured by a nested function
+        where = {}
+        okk = True
+        for x in names:
+            j = next((i for i, s_ in enumerate(blk) if any(y is x for y in ast.walk(s_))), None)
+            if j is None or j < idx[0]:
+                okk = False
+                break
+            if isinstance(x.ctx, ast.Store):
+                where[id(x)] = idx.index(j)
+            else:
+                # a use inside the defining statement itself reads the previous range
+                m = max(i for i, d_ in enumerate(idx) if d_ < j or (d_ == j and False)) if any(d_ < j for d_ in idx) else None
+                if m is None:
+                    okk = False
+                    break
+                where[id(x)] = m
+        if not okk:
+            continue
+        for x in names:
+            m = where[id(x)]
+            if m > 0:
+                x.id = f"{k}__{m + 1}"
+        changed = True
+    return changed
+
+
 def _surely_bool(e, repo) -> bool:
     if isinstance(e, ast.Compare):
         return True
@@ -1868,8 +1978,10 @@ def _canonical_bool_locals(fn, repo) -> bool:
             return None
 
         roles = [role(u_) for u_ in uses]
-        if None in roles or "return" not in roles:
-            continue        # (without a returned verdict there is nothing to make literal; tests on a local are followed by the facts anyway)
+        if None in roles:
+            continue
+        if "return" not in roles and not isinstance(d.value, ast.BoolOp):
+            continue        # (a single atom bound to a flag and only tested: the fact copy of the engine follows it)
         holder = getattr(d, "_parent", None)
         blk = next((getattr(holder, fl) for fl in ("body", "orelse", "finalbody") if isinstance(getattr(holder, fl, None), list) and d in getattr(holder, fl)), None)
         if blk is None:
